@@ -9,6 +9,11 @@ C06 (next-pre <tspecs> <now> <startup> <suntab> <cronnext> <utcoff>)            
 C06 (chain <tspecs> <startup> <n> <horizon> <su> <sd> <suntab> <cronnext> <utcoff>)
                                                                    → [startup] t1 t2 … [shutdown]: the runs of a trigger loop
                                                                      started at `startup` and removed at `horizon`
+C06 (dst legacy|new <tspecs> <startup> <r0> <n> <rEnd> <zreal> <znaive> <cronlists>)
+                                                                   → t@w@r …  runs of the wait loop on real time: trigger_time, wall
+                                                                     clock and real time of each run (real time ≤ rEnd)
+                                                                     zreal/znaive = ((threshold offset) …) ascending: offset of the wall
+                                                                     clock at real time / of a naive local time; cronlists = ((id t1 t2 …) …)
 C06 (off <offast>)                                                 → <µs>
 C06 (civil <day>) → y m d w          C06 (days y m d) → <day>|invalid
 tspec   = (once <dt>) | (period <dt> <offast> <dt|none> num den) | (cron id)
@@ -79,6 +84,20 @@ def mkParams (specs : List (TSpec × Option (Int × Int × Int))) (sun : List (B
       | some r => r.2
       | none => 0 }
 
+def stepRow? : Sexp → Option (Int × Int)
+  | .list [t, o] => do pure (← t.int?, ← o.int?)
+  | _ => none
+
+/-- piecewise constant: the offset of the last threshold ≤ x (the first row's offset before all thresholds) -/
+def stepLookup (tab : List (Int × Int)) (x : Int) : Int :=
+  match tab with
+  | [] => 0
+  | first :: _ => (tab.foldl (fun acc row => if row.1 ≤ x then row.2 else acc) first.2)
+
+def cronList? : Sexp → Option (Nat × List Int)
+  | .list (id :: ts) => do pure (← id.nat?, ← Sexp.mapM? Sexp.int? ts)
+  | _ => none
+
 def showOI : Option Int → String
   | some t => toString t
   | none => "none"
@@ -101,6 +120,21 @@ def handle (x : Sexp) : String :=
       let body := ((timeLoop TFlags.current (mkParams ss sun cnT uoT) (ss.map (·.1)) st (fun _ => 1) k st).filter (fun t => t ≤ h)).map toString
       " ".intercalate ((if su then ["startup"] else []) ++ body ++ (if sd then ["shutdown"] else []))
     | _, _, _, _, _, _, _, _, _ => "err parse"
+  | .list [.atom "dst", .atom sub, specs, startup, r0, cnt, rEnd, zr, zn, cl] =>
+    match Sexp.listOf? tspec? specs, startup.int?, r0.int?, cnt.nat?, rEnd.int?, Sexp.listOf? stepRow? zr, Sexp.listOf? stepRow? zn,
+        Sexp.listOf? cronList? cl with
+    | some ss, some st, some r, some k, some re, some zrT, some znT, some clT =>
+      let P : Params :=
+        { base := C07.Params.trivial
+          fdiv := fun e per => e / per
+          cronNext := fun id t =>
+            match clT.find? (fun row => row.1 == id) with
+            | some row => (row.2.find? (fun x => t < x)).getD (t + 1)
+            | none => t + 1
+          utcOff := stepLookup znT }
+      let runs := dstLoop (if sub == "legacy" then WFlags.legacy else WFlags.new) TFlags.current P (ss.map (·.1)) st ⟨stepLookup zrT⟩ k r
+      " ".intercalate ((runs.filter (fun x => x.2.2 ≤ re)).map (fun x => s!"{x.1}@{x.2.1}@{x.2.2}"))
+    | _, _, _, _, _, _, _, _ => "err parse"
   | .list [.atom "off", o] =>
     match offAst? o with
     | some a => toString (offUs a)
